@@ -149,12 +149,12 @@ def infer_psize(n, log):
 
 
 def execute(CphotAng, inputs, oracle, mode, fail=0, W=1, steps=None, order=None, shake=0, psize_override=None,
-            det_alt=525.0):
+            det_alt=525.0, obj=None):
     """Run one batch and return its trace (list of TraceBatch events)."""
     import dask.bag as db
     beta, alt, E, lat, lon = inputs
     n = len(beta)
-    obj = CphotAng(det_alt)
+    obj = obj if obj is not None else CphotAng(det_alt)      # obj given: a kernel object that has already evaluated batches
     before = kernel_digest(obj)
     log = daskkit.ExecLog()
     cloud = Cloud(fail, shake)
@@ -313,6 +313,11 @@ def run(tier="quick", seed=0):
         traces.append(execute(CphotAng, inp, orc, mode, 0, w))
     traces.append(execute(CphotAng, inp, orc, "threads", 150, 4))
     traces.append(execute(CphotAng, inp, orc, "processes", 100, 2))
+    # call history on ONE kernel object: a clean batch, then the same events with a callback that fails for one of them, then a
+    # clean batch again - what the object may remember from an earlier batch must neither hide the failure nor change a result
+    shared = CphotAng(525.0)
+    for mode, w, fl in (("synchronous", 1, 0), ("synchronous", 1, 57), ("threads", 4, 0), ("threads", 4, 180), ("synchronous", 1, 0)):
+        traces.append(execute(CphotAng, inp, orc, mode, fl, w, obj=shared))
     # empty batch with the real kernel
     e0 = make_inputs(0, 1)
     traces.append(execute(CphotAng, e0, Oracle(CphotAng, e0), "synchronous", 0, 1))
